@@ -21,5 +21,5 @@ PROPERTY DisabledAppliesNothing
 PROPERTY CloneEqual
 PROPERTY Independent
 CONSTRAINT Bound
-VIEW core
+VIEW coreSteps
 CHECK_DEADLOCK FALSE
